@@ -94,7 +94,7 @@ theorem wProps_spec : ∀ e : Expr, wProps recW e = true →
 theorem tAtomInner_node (e : Expr) (hw : wAtom recW e = true) : ∃ r ks, tAtomInner N recT e = N.nd r ks := by
   cases e with
   | lit v => cases v <;> exact ⟨_, _, rfl⟩
-  | var _ | param _ | list _ | paren _ | fn _ _ _ _ | map _ => exact ⟨_, _, rfl⟩
+  | var _ | param _ | list _ | paren _ | fn _ _ _ _ | map _ | quant _ _ _ _ => exact ⟨_, _, rfl⟩
   | _ => simp [wAtom] at hw
 
 theorem bPostfix_props : ∀ (ks : List String) (acc : Expr) (tail : List Tree) (f : Nat),
